@@ -297,6 +297,8 @@ fn add_stats(rep: &mut Report, s: &Stats) {
     rep.add("lsm.make-room-rotations", s.room_rotations);
     rep.add("lsm.make-room-delays", s.room_delays);
     rep.add("lsm.make-room-forced-iterations", s.room_forced);
+    rep.add("lsm.make-room-calls-run-through-the-model", s.room_calls);
+    rep.add("lsm.make-room-calls-that-waited", s.room_calls_with_wait);
     rep.add("lsm.deletion-pass-names-decided", s.obsolete_names);
     rep.add("lsm.deletion-pass-names-marked", s.obsolete_deleted);
     rep.add("lsm.deletion-pass-foreign-names", s.obsolete_foreign_names);
